@@ -1,4 +1,5 @@
 import CppUModel.Proofs.SeparateProcess
+import CppUModel.Model.SeparateProcessArgv
 /-!
 # C11 — separate-process mode contains every way a test can die
 
@@ -908,5 +909,103 @@ example : (genRunSeparate ⟨true, List.replicate (retryBound + 2) .eintr ++ [.s
 example : (genRunSeparate ⟨true, List.replicate (retryBound + 1) .eintr ++ [.status 0#32]⟩).ended = .condFalse := by decide
 /-- 7 failures from earlier tests, this child's plugin reports two more: exit status 1 -/
 example : genChildStatus 7 9 = 0x100#32 ∧ genChildStatus 7 7 = 0#32 ∧ genChildStatus 0 300 = 0x100#32 := by decide
+
+/-! ## from the argument vector to separate-process mode (`Model/SeparateProcessArgv.lean` over C12's parser model)
+
+What reaches `initializeTestRun` is the *parsed* configuration.  An option that takes its value from the
+next argument swallows a `-p` standing there; `-r` takes its optional count from the next argument only
+when that is a non-zero number, so `-r -p` is (repeat 2, separate process on). -/
+
+theorem no_dash_p_leaves_separate_mode_off (v vv c ri f : Bool) :
+    separateModeOn { verbose := v, veryVerbose := vv, color := c, separateProcess := false,
+                     runIgnored := ri, crashOnFail := f } = false := by
+  revert v vv c ri f; decide
+
+/-- `registry_->setRunTestsInSeperateProcess()` is called iff the parsed configuration says so -/
+theorem separate_mode_is_the_parsed_flag (c : CommandLine.Config) :
+    separateModeOn (cliArgsOfConfig c) = c.separateProcess := by
+  cases h : c.separateProcess
+  · simp only [cliArgsOfConfig, h]; exact no_dash_p_leaves_separate_mode_off _ _ _ _ _
+  · simp only [cliArgsOfConfig, h]; exact dash_p_switches_separate_mode_on _ _ _ _ _
+
+theorem runKindsInRunner_keeps (ri : Bool) (x : Nat) : ∀ (ts : List KTest) (idx : Nat) (st : RunState),
+    x ∈ st.inRunner → x ∈ (runKindsInRunner ri idx ts st).inRunner
+  | [], _, _, h => h
+  | t :: ts, idx, st, h => by
+    unfold runKindsInRunner
+    split
+    · exact runKindsInRunner_keeps ri x ts (idx + 1) _ (by simpa [notRunAt] using h)
+    · exact runKindsInRunner_keeps ri x ts (idx + 1) _ (by simp [runInRunnerAt, h])
+
+/-- **For every argument vector the runner forks every test iff the parsed configuration has
+    `runTestsInSeperateProcess`**: with the flag nothing is executed inside the runner (and with run-ignored
+    the run is the all-forked run the theorems above are about); without it the very first test already
+    runs inside the runner, where its death is the runner's. -/
+theorem argv_forks_every_test_iff (args : List Text.Bytes) (t : KTest) (ts : List KTest) (hk : t.kind = .normal) :
+    ((runArgv args (t :: ts)).inRunner = [] ↔ (parsedConfig args).separateProcess = true) ∧
+    ((parsedConfig args).separateProcess = true → (parsedConfig args).runIgnored = true →
+       runArgv args (t :: ts) = runAll ((t :: ts).map (·.script))) := by
+  refine ⟨?_, ?_⟩
+  · unfold runArgv runCommandLineKinds
+    rw [separate_mode_is_the_parsed_flag]
+    cases h : (parsedConfig args).separateProcess
+    · simp only [Bool.false_eq_true, if_false, iff_false]
+      intro he
+      have : 0 ∈ (runKindsInRunner (runIgnoredOn (cliArgsOfConfig (parsedConfig args))) 0 (t :: ts) RunState.init).inRunner := by
+        unfold runKindsInRunner
+        simp only [hk]
+        exact runKindsInRunner_keeps _ 0 ts 1 _ (by simp [runInRunnerAt, RunState.init])
+      rw [he] at this; exact absurd this (by simp)
+    · simp only [if_true, iff_true]
+      exact (every_kind_is_forked (t :: ts) _).1
+  · intro hp hri
+    exact (dash_p_dash_ri_forks_every_kind (cliArgsOfConfig (parsedConfig args)) (t :: ts) hp).2 hri
+
+def argDashR : Text.Bytes := [45, 114]          -- "-r"
+def argDashP : Text.Bytes := [45, 112]          -- "-p"
+def argDashR2 : Text.Bytes := [45, 114, 50]     -- "-r2"
+def argTwo : Text.Bytes := [50]                 -- "2"
+def argDashG : Text.Bytes := [45, 103]          -- "-g"
+
+/-- **`-r -p`: a bare `-r` followed by something that is not a count does not consume it** — the run is
+    repeated twice and separate-process mode is on; likewise for the other orders and spellings -/
+theorem dash_r_dash_p_parses :
+    (parseArgs [argDashR, argDashP]).isOk = true ∧
+    (parsedConfig [argDashR, argDashP]).repeatCount = 2 ∧ (parsedConfig [argDashR, argDashP]).separateProcess = true ∧
+    (parsedConfig [argDashP, argDashR]).repeatCount = 2 ∧ (parsedConfig [argDashP, argDashR]).separateProcess = true ∧
+    (parsedConfig [argDashR2, argDashP]).repeatCount = 2 ∧ (parsedConfig [argDashR2, argDashP]).separateProcess = true ∧
+    (parsedConfig [argDashR, argTwo, argDashP]).repeatCount = 2 ∧ (parsedConfig [argDashR, argTwo, argDashP]).separateProcess = true := by
+  decide
+
+/-- … so a test that is killed under `-r -p` is forked and recorded, in every repetition -/
+theorem dash_r_dash_p_forks_every_test (t : KTest) (ts : List KTest) (hk : t.kind = .normal) :
+    (runArgv [argDashR, argDashP] (t :: ts)).inRunner = [] ∧ repeatsOf [argDashR, argDashP] = 2 :=
+  ⟨((argv_forks_every_test_iff _ t ts hk).1).2 (by decide), by decide⟩
+
+/-- the runner's exit code over the repetitions is non-zero as soon as one repetition recorded a failure -/
+theorem repeated_run_failure_reaches_exit_code (rounds : List (Nat × Bool)) (r : Nat × Bool) (hr : r ∈ rounds) (hf : r.1 ≠ 0) :
+    exitCodeOfRounds rounds ≠ 0 := by
+  have hle : ∀ (l : List Nat) (x : Nat), x ∈ l → x ≤ l.sum := by
+    intro l
+    induction l with
+    | nil => intro x hx; cases hx
+    | cons a l ih =>
+      intro x hx
+      rcases List.mem_cons.mp hx with rfl | h
+      · simp
+      · have := ih x h; simp only [List.sum_cons]; omega
+  have h1 : r.1 ≤ (rounds.map (·.1)).sum := hle _ _ (List.mem_map.mpr ⟨r, hr, rfl⟩)
+  unfold exitCodeOfRounds
+  have hne : (rounds.map (·.1)).sum ≠ 0 := by omega
+  simp [hne]
+
+/-- non-vacuity: three tests, the second killed by SIGSEGV, `-r -p`: all forked, one failure, all started;
+    with `-g -p` (the group option really takes the next argument) everything runs inside the runner -/
+example : (runArgv [argDashR, argDashP] [⟨.normal, 0, ⟨true, [.status 0#32]⟩⟩, ⟨.normal, 0, ⟨true, [.status 11#32]⟩⟩, ⟨.normal, 0, ⟨true, [.status 0#32]⟩⟩]).inRunner = [] ∧
+    (runArgv [argDashR, argDashP] [⟨.normal, 0, ⟨true, [.status 0#32]⟩⟩, ⟨.normal, 0, ⟨true, [.status 11#32]⟩⟩, ⟨.normal, 0, ⟨true, [.status 0#32]⟩⟩]).started = [0, 1, 2] ∧
+    (runArgv [argDashR, argDashP] [⟨.normal, 0, ⟨true, [.status 0#32]⟩⟩, ⟨.normal, 0, ⟨true, [.status 11#32]⟩⟩, ⟨.normal, 0, ⟨true, [.status 0#32]⟩⟩]).failureCount = 1 ∧
+    (parsedConfig [argDashG, argDashP]).separateProcess = false ∧
+    (runArgv [argDashG, argDashP] [⟨.normal, 0, ⟨true, [.status 0#32]⟩⟩, ⟨.normal, 0, ⟨true, [.status 11#32]⟩⟩]).inRunner = [0, 1] ∧
+    exitCodeOfRounds [(1, true), (1, true)] = 2 ∧ exitCodeOfRounds [(0, true), (0, false)] = 1 := by decide
 
 end SepProc
